@@ -13,6 +13,20 @@ Definition ret_wf (rt : ret) : bool := match rt with RetStatus c _ => code_ok c 
 (* [half]: the client has half-closed; [sent]: the header block has left the server; [infl]: it
    has left but the client has not yet seen anything that follows it (a message, Header()): whether
    a cancel at that moment overtakes it depends on the transport, so no cancel there *)
+(* what a handler may still do after the client's context has ended, up to its return *)
+Fixpoint wf_post (sh : shape) (half : bool) (l : list step) : bool :=
+  match l with
+  | [] => false
+  | st :: rest =>
+      match st with
+      | SetH _ | SendH _ | SetT _ => wf_post sh half rest
+      | S2C _ => srv_has_stream sh && wf_post sh half rest
+      | RecvEOF => srv_has_stream sh && negb half && wf_post sh half rest
+      | Ret rt => ret_wf rt && match rest with [] => true | _ => false end
+      | _ => false
+      end
+  end.
+
 Fixpoint wf_steps (sh : shape) (half sent infl : bool) (l : list step) : bool :=
   match l with
   | [] => false                                  (* a call ends with the handler returning or a cancel *)
@@ -29,7 +43,8 @@ Fixpoint wf_steps (sh : shape) (half sent infl : bool) (l : list step) : bool :=
       | RecvEOF => srv_has_stream sh && half && wf_steps sh half sent infl rest
       | CHeader => negb (is_invoke sh) && sent && wf_steps sh half sent false rest
       | Ret rt => ret_wf rt && match rest with [] => true | _ => false end
-      | Cancel => negb infl && match rest with [] => true | _ => false end
+      | CtxEnd _ => negb infl && wf_post sh half rest
+      | Cancel _ => negb infl && match rest with [] => true | _ => false end
       end
   end.
 
@@ -41,11 +56,19 @@ Definition wf (sc : scenario) : bool :=
 
 (* class 1: the client cancels after the handler has set trailer metadata: the wrapper's Trailer()
    reads the handler's map, a real connection never delivers trailers to a cancelled call *)
+Fixpoint post_sets_trailer (l : list step) : bool :=
+  match l with
+  | [] => false
+  | SetT t :: rest => negb (md_empty t) || post_sets_trailer rest
+  | _ :: rest => post_sets_trailer rest
+  end.
+
 Fixpoint k1_steps (trl : bool) (l : list step) : bool :=
   match l with
   | [] => false
   | SetT t :: rest => k1_steps (trl || negb (md_empty t)) rest
-  | Cancel :: _ => trl
+  | CtxEnd _ :: rest => trl || post_sets_trailer rest
+  | Cancel _ :: _ => trl
   | _ :: rest => k1_steps trl rest
   end.
 
@@ -60,10 +83,28 @@ Fixpoint k2_steps (sh : shape) (l : list step) : bool :=
   | _ :: rest => k2_steps sh rest
   end.
 
+(* class 4: the handler calls SendHeader after the client's context has ended, headers not sent
+   before: the wrapper latches them and the client's Header() shows them, a real connection delivers
+   nothing any more *)
+Fixpoint k4_post (sent : bool) (l : list step) : bool :=
+  match l with
+  | [] => false
+  | SendH _ :: rest => negb sent || k4_post true rest
+  | _ :: rest => k4_post sent rest
+  end.
+Fixpoint k4_steps (sent : bool) (l : list step) : bool :=
+  match l with
+  | [] => false
+  | CtxEnd _ :: rest => k4_post sent rest
+  | S2C _ :: rest | SendH _ :: rest => k4_steps true rest
+  | _ :: rest => k4_steps sent rest
+  end.
+
 Definition known_class (sc : scenario) : option Z :=
   if precancel sc then None
   else if k1_steps false (steps sc) then Some 1
   else if k2_steps (shp sc) (steps sc) then Some 2
+  else if k4_steps false (steps sc) then Some 4
   else None.
 
 Definition no_known (sc : scenario) : bool := match known_class sc with None => true | Some _ => false end.
@@ -94,6 +135,7 @@ Definition sobs_eqb (a b : sobs) : bool :=
   match a, b with
   | SEntered m, SEntered m' => m =? m'
   | SGot m, SGot m' => m =? m'
+  | SIncoming h, SIncoming h' => md_eqb h h'
   | SEof, SEof | SRecvErr, SRecvErr => true
   | SSent x, SSent y | SSetH x, SSetH y | SSendH x, SSendH y | SDone x, SDone y => Bool.eqb x y
   | _, _ => false
@@ -106,8 +148,13 @@ Definition transcript_eqb (a b : transcript) : bool :=
 Definition server_received (l : list sobs) : list Z :=
   flat_map (fun o => match o with SEntered m => [m] | SGot m => [m] | _ => [] end) l.
 
+(* the request metadata the handler was given *)
+Definition server_incoming (l : list sobs) : list md :=
+  flat_map (fun o => match o with SIncoming h => [h] | _ => [] end) l.
+
 Definition same_view (a b : transcript) : bool :=
-  list_eqb cobs_eqb (fst a) (fst b) && list_eqb Z.eqb (server_received (snd a)) (server_received (snd b)).
+  list_eqb cobs_eqb (fst a) (fst b) && list_eqb Z.eqb (server_received (snd a)) (server_received (snd b))
+  && list_eqb md_eqb (server_incoming (snd a)) (server_incoming (snd b)).
 
 (* ---- cases ---- *)
 
@@ -116,7 +163,18 @@ Inductive c13case :=
     (* unknown method [m] (not in the service): error code from wrapper and from gRPC; -1 = no error *)
 | KUnknown (m : Z) (via_stream : bool) (cw cg : Z)
     (* NewStream on method [m] with a stream description (d_ss, d_cs): error code from the wrapper *)
-| KShape (m : Z) (d_ss d_cs : bool) (cw : Z).
+| KShape (m : Z) (d_ss d_cs : bool) (cw : Z)
+    (* client misuse [k] on a fresh bidi stream: what the offending call did on the wrapper and on gRPC *)
+| KMisuse (k : misuse) (rw rg : mres)
+    (* wrap.UnwrapFully on a chain of wrappers with ids [ids] around a plain object [leaf]: id of the result *)
+| KUnwrap (ids : list Z) (leaf got : Z).
+
+Definition mres_eqb (a b : mres) : bool :=
+  match a, b with
+  | MNil, MNil | MPanic, MPanic => true
+  | MErr c, MErr c' => c =? c'
+  | _, _ => false
+  end.
 
 Definition code_of (o : option Z) : Z := match o with None => -1 | Some c => c end.
 
@@ -127,6 +185,8 @@ Definition agrees (c : c13case) : bool :=
       (cw =? code_of (if via then newstream_lookup m false false else invoke_lookup m))
       && (cg =? grpc_unknown_method_code)
   | KShape m a b cw => cw =? code_of (newstream_lookup m a b)
+  | KMisuse k rw rg => mres_eqb rw (w_misuse k) && mres_eqb rg (g_misuse k)
+  | KUnwrap ids leaf got => got =? obj_id (unwrap_fully (mk_chain ids leaf))
   end.
 
 Definition shape_of_method (m : Z) : option (bool * bool) :=
@@ -142,6 +202,8 @@ Definition C13_ok (c : c13case) : bool :=
       | Some (x, y) => if Bool.eqb x a && Bool.eqb y b then cw =? -1 else cw =? 13
       | None => cw =? 12
       end
+  | KMisuse k rw rg => mres_eqb rw rg
+  | KUnwrap ids leaf got => got =? leaf     (* the innermost object, whatever the wrappers *)
   end.
 
 Definition C13_guard (c : c13case) : bool :=
@@ -149,10 +211,14 @@ Definition C13_guard (c : c13case) : bool :=
   | KCall sc _ _ => wf sc
   | KUnknown m _ _ _ => match shape_of_method m with None => true | Some _ => false end
   | KShape _ _ _ _ => true
+  | KMisuse _ _ _ => true
+  | KUnwrap _ _ _ => true
   end.
 
+(* class 3: the client calls SendMsg after CloseSend, or CloseSend a second time: the wrapper panics
+   (channel already closed), a real connection returns an Internal error / nil *)
 Definition C13_known (c : c13case) : option Z :=
-  match c with KCall sc _ _ => known_class sc | _ => None end.
+  match c with KCall sc _ _ => known_class sc | KMisuse _ _ _ => Some 3 | _ => None end.
 
 Definition judge (c : c13case) : Z :=
   verdict (agrees c) (if C13_guard c then C13_ok c else true) (C13_known c).
